@@ -6,6 +6,7 @@ V = os.path.dirname(os.path.dirname(os.path.abspath(__file__)))
 sys.path.insert(0, os.path.join(V, 'engine'))
 WHY = {
  ('C03', 'C06'): 'a fixed variable is read back through SampleSet::get, where the recorded value must win (seed C03-9)',
+ ('C03', 'C05'): 'evaluate after partial_evaluate passes check_bound again; it may refuse only a submitted value outside its bound (seed C03-20)',
  ('C04', 'C01'): 'substitution results are evaluated by the C01 kernels (seed C04-10)',
  ('C04', 'C02'): '`v * r`, `v * x_id`, `out + v` in Function::substitute are the C02 product / sum kernels (seed C04-15)',
  ('C04', 'C03'): 'partial evaluation must rewrite the dependency functions, or chains cannot be recovered afterwards (seed C04-12)',
